@@ -47,6 +47,7 @@ var catalog = []template{
 	{ClArith, "div_type", kExpr, []string{`"a" / 2`, `4 / Obj.S`}},
 	{ClArith, "div_zero_lit", kExpr, []string{`1 / 0`, `Obj.I / 0`, `7 / 0`}},
 	{ClArith, "div_zero_inj", kExpr, []string{`5 / Z.Zero`, `Obj.F / Z.Zero`}},
+	{ClArith, "div_zero_widths", kExpr, []string{`5 / Z.Zero8`, `Obj.I / Z.Zero16`, `7 / Z.Zero32`, `Obj.I / Z.ZeroU`, `3 / Z.ZeroF`, `Obj.U8 / Z.Zero16`}},
 	{ClArith, "div_zero_float", kExpr, []string{`1.5 / 0.0`}},
 	{ClArith, "nested", kExpr, []string{`(1 + 2) * (3 / Z.Zero)`, `2 * (1 + "a")`, `1 + 2 * Obj.B`}},
 	{ClArith, "compound_div_zero", kAssign, []string{`Obj.I /= 0`, `Obj.F /= Z.Zero`}},
